@@ -14,7 +14,7 @@ BASE_NOTE = ('Trusted: Lean 4.33.0 kernel, axioms within {propext, Classical.cho
 CLAIMED = {
     'C03': dict(
         technique='Lean 4 theorems (induction over inputs and value lists) about an executable model + differential correspondence + oracle search',
-        text='Per key and for every number of inputs, shape, classification mix and value list, the Lean model of from_sequence/_insert/_insert_slice/_insert_sample/_insert_non_slice/_get_changed_class is proved to concatenate lookups (slice, time, vector axes), to keep exactly the agreeing keys on non-slice axes and to yield valid results, and the merges are proved unable to raise for valid inputs in those regions (merge_*_total; the excluded vector axis of length 1 is finding F22); the model is tied to dcmmeta.py by running both on generated merges (all axes, 3-5 D, canonical and non-canonical inputs, missing keys, differing slice normals) and the property itself is searched for a failing input on the implementation.',
+        text='Per key and for every number of inputs, shape, classification mix and value list, the Lean model of from_sequence/_insert/_insert_slice/_insert_sample/_insert_non_slice/_get_changed_class is proved to concatenate lookups (slice, time, vector axes), to keep exactly the agreeing keys on non-slice axes and to yield valid results, and the merges are proved unable to raise for valid inputs in those regions (merge_*_total); the model is tied to dcmmeta.py by running both on generated merges (all axes, 3-5 D, canonical and non-canonical inputs, missing keys, differing slice normals) and the property itself is searched for a failing input on the implementation.',
         design='DESIGN.md §7 C03', note=BASE_NOTE + ' Wrapper-level data/affine clauses are checked by the oracle on exact (integer) geometry; float geometry near tolerances is runtime.'),
     'C04': dict(
         technique='Lean 4 theorems about the executable model of get_subset/_copy_slice/_copy_sample + differential correspondence + oracle search',
